@@ -52,6 +52,8 @@ pub enum QStep {
     /// delete the by-key index / heads table with plain redb and reopen (migrations rebuild them)
     DropDerived { by_key: bool, heads: bool },
     Query(QSpec),
+    /// remove one document of the store and create it again, empty (the others must not notice)
+    RemoveDoc { d: u8 },
     Exact { d: u8, a: u8, #[serde(with = "hexbytes")] k: Vec<u8>, include_empty: bool },
 }
 
@@ -114,6 +116,9 @@ impl Scenario for QueryScen {
             steps.push(QStep::Offer { i, path: if rng.chance(1, 4) { Path::InMessage } else { Path::Remote } });
             if rng.chance(1, 6) && backend != Backend::Mem {
                 steps.push(QStep::Restart);
+            }
+            if g.docs > 1 && rng.chance(1, 12) {
+                steps.push(QStep::RemoveDoc { d: rng.below(g.docs as u64) as u8 });
             }
             if rng.chance(1, 10) && backend == Backend::Disk {
                 steps.push(QStep::DropDerived { by_key: rng.chance(2, 3), heads: rng.chance(1, 2) });
@@ -311,6 +316,14 @@ async fn run(plan: &QueryPlan, cx: &mut Cx) -> Res {
                 }
                 let _ = before;
                 cx.ev("offer", e.short());
+            }
+            QStep::RemoveDoc { d } => {
+                let d = *d % crate::world::N_DOCS as u8;
+                sut.store().remove_replica(&w.doc_id(d)).map_err(|e| harness(format!("remove: {e:#}")))?;
+                ensure_doc(sut.store(), d)?;
+                models[d as usize] = RefDoc::default();
+                cx.probe("document_removed_and_recreated_between_queries");
+                cx.ev("remove-doc", format!("d{d}"));
             }
             QStep::Restart => {
                 if sut.can_restart() {
